@@ -72,6 +72,7 @@ LEVEL = {
 }
 LEVEL["decided"] += ' R18.4 shares the enter_context table R14.4 (a manager is registered only after it was entered).'
 LEVEL["decided"] += ' (R18.7) leaving a scoped_iter block closes the real iterator on every path (R08.3, shared).'
+LEVEL["decided"] += ' R18.4 also: an exit registered while the stack unwinds from a cancelled block has run when the unwind is over (R14.12, shared); (R18.8) scoped_iter chooses the neutral context by asking aiter(iterable) for aclose (R08.4, shared).'
 
 # ExitStack's own protocol: it *is* the code that calls __aenter__/__aexit__ by hand
 MANUAL_PROTOCOL_OK = {
